@@ -72,13 +72,8 @@ func runC20(c *Ctx) {
 	upgScenario := func(name string, upgradable, match bool, desc string) {
 		r := reach(upg, func(v ssa.Value) (*ssa.Const, bool) {
 			if mcCall != nil {
-				if ResultOfCall(v, mcCall, 0) && short(v.Type().String()) == "bool" {
-					if ex, ok := v.(*ssa.Extract); ok && ex.Index == 0 {
-						return boolConst(upgradable, v.Type()), true
-					}
-				}
-				if ex, ok := v.(*ssa.Extract); ok && ex.Tuple == ssa.Value(mcCall) {
-					switch ex.Index {
+				if idx, ok := CallComponent(v, mcCall); ok && short(v.Type().String()) == "bool" {
+					switch idx {
 					case 0:
 						return boolConst(upgradable, v.Type()), true
 					case 1:
@@ -97,14 +92,18 @@ func runC20(c *Ctx) {
 		mcCall2, _ = ci.(*ssa.Call)
 	}
 	r = reach(unin, func(v ssa.Value) (*ssa.Const, bool) {
-		if ex, ok := v.(*ssa.Extract); ok && mcCall2 != nil && ex.Tuple == ssa.Value(mcCall2) && ex.Index == 0 {
-			return boolConst(false, v.Type()), true
+		if mcCall2 != nil {
+			if idx, ok := CallComponent(v, mcCall2); ok && idx == 0 && short(v.Type().String()) == "bool" {
+				return boolConst(false, v.Type()), true
+			}
 		}
 		return nil, false
 	}, "os.RemoveAll")
 	r2 := reach(unin, func(v ssa.Value) (*ssa.Const, bool) {
-		if ex, ok := v.(*ssa.Extract); ok && mcCall2 != nil && ex.Tuple == ssa.Value(mcCall2) && ex.Index == 0 {
-			return boolConst(false, v.Type()), true
+		if mcCall2 != nil {
+			if idx, ok := CallComponent(v, mcCall2); ok && idx == 0 && short(v.Type().String()) == "bool" {
+				return boolConst(false, v.Type()), true
+			}
 		}
 		return nil, false
 	}, "os.Remove")
@@ -127,7 +126,7 @@ func runC20(c *Ctx) {
 	}
 	// the error of matchesCurrent is propagated (conflict reported)
 	if mcCall != nil {
-		errPropagates(c, "R1", "Upgrade:conflict-reported", upg, mcCall, 2)
+		errPropagates(c, "R1", "Upgrade:conflict-reported", upg, mcCall, mcCall.Call.Signature().Results().Len()-1)
 	}
 	// who may write / remove hook files
 	for _, fn := range p.RepoFuncs(productPkg) {
@@ -189,7 +188,8 @@ func runC20(c *Ctx) {
 	})
 	nTrue := 0
 	for _, ret := range ReturnsOf(mc) {
-		bv, isC := ConstBool(ret.Results[0])
+		comps := ResultComponents(ret)
+		bv, isC := ConstBool(comps[0])
 		if !isC {
 			c.Undecided("R1", "matchesCurrent:verdict", p.InstrPos(ret), "non-constant recognition result")
 			continue
